@@ -38,6 +38,7 @@ class SimFS:
         self.open_files: list[SimFile] = []
         self.fail_open: dict[str, type] = {}
         self.fds: dict[int, tuple[str, int]] = {}  # descriptors from os.open: fd -> (path, flags)
+        self.disk_full = False  # after a short write every further write fails with ENOSPC
         self.fail_at: tuple[int, int, int] | None = None  # (op index, errno, prefix of pending bytes that still got written)
         self.errors_injected = 0
 
@@ -55,6 +56,8 @@ class SimFS:
             # a prefix may already have reached the file (short write on a full disk)
             _, err, keep = self.fail_at
             self.fail_at = None
+            if err == -1:
+                err = 28  # a short write under a buffered file: the buffer retries the rest and runs into ENOSPC
             if kind in ("write", "flush", "close") and f is not None and keep:
                 f._apply(min(keep, len(f.pending)))
             if kind in ("flush", "close") and f is not None:
@@ -73,6 +76,7 @@ class SimFS:
 
     def restart(self) -> None:
         """fresh process on the surviving files"""
+        self.disk_full = False
         self.crashed = False
         self.crash_at = None
         self.op_counter = 0
@@ -122,6 +126,7 @@ class SimFS:
         if _real_os.path.dirname(path) not in self.dirs:
             raise FileNotFoundError(2, "No such file or directory", path)
         f = SimFile(self, path, mode, encoding or "utf-8")
+        f.raw = buffering == 0 and "b" in mode
         if self.step("open_" + mode.replace("b", "").replace("t", ""), path):
             if "w" in mode:
                 self.files[path] = b""
@@ -187,9 +192,32 @@ class SimFile:
         self.closed = False
         self.name = path
         self.pos = 0  # offset at which pending bytes land (0 after a truncating open)
+        self.raw = False
 
     def write(self, s) -> int:
         data = bytes(s) if self.binary else s.encode(self.encoding)
+        if self.raw:
+            # io.FileIO (open(..., "wb", buffering=0)): one write(2) per call, no user-space buffer, and the call may accept
+            # FEWER bytes than asked for without raising (full disk, quota, RLIMIT_FSIZE); only the next write fails
+            fs = self.fs
+            if fs.disk_full:
+                fs.step("write", self.path, 0, self)
+                raise OSError(28, "No space left on device", self.path)
+            fa = fs.fail_at
+            if fa is not None and fa[0] == fs.op_counter and fa[1] == -1 and not fs.crashed:
+                fs.fail_at = None
+                fs.ops.append(("write", self.path, len(data)))
+                fs.op_counter += 1
+                keep = min(max(fa[2], 0), max(len(data) - 1, 0))
+                self.pending += data[:keep]
+                self._commit()
+                fs.disk_full = True
+                fs.errors_injected += 1
+                return keep
+            self.pending += data
+            if fs.step("write", self.path, len(data), self):
+                self._commit()
+            return len(data)
         self.pending += data
         self.fs.step("write", self.path, len(data), self)
         return len(s)
